@@ -496,6 +496,7 @@ class InvSim(AoefSim):
             return self.record(op, "skipped")
         target = self.abspath(dst)
         os.makedirs(os.path.dirname(target), exist_ok=True)
+        self._move_companions(self.abspath(src), target, False)
         with open(target, "wb") as fp:
             fp.write(raw)
         self.docs[dst] = {
@@ -661,7 +662,15 @@ class InvSim(AoefSim):
             # 2. completeness: a closed, valid stored arrangement must load
             # (not claimed once a fault touched a reference the statement
             # does not speak about)
-            if closed and not broken_anywhere and not state.get("foreign") and not (
+            # ... and, once faults touched the document, only when one of
+            # the classes the statement names refused it: a stored document
+            # that was tampered with may be turned down for reasons of its
+            # own (an integrity hash, a strict schema, a uniqueness rule of
+            # another class)
+            named = not state["faults"] or reply.get("title") in C04_CLASSES
+            if not named and closed and not broken_anywhere:
+                self.probes.hit("C04:faulted-valid-document-refused-elsewhere")
+            if named and closed and not broken_anywhere and not state.get("foreign") and not (
                 {"flip", "truncate"} & set(state["faults"])
             ):
                 self.violate(
@@ -1129,7 +1138,10 @@ def mutate(spec, rng, seed_tag):
         if mode == "ints":
             # whole numbers, as a caller or a hand-written document has them
             c["start_time"], c["end_time"] = rng.choice(
-                [(5, 3), (1, 0), (2, 2), (0, 0), (0, 1), (3, 5)]
+                [(5, 3), (1, 0), (2, 2), (0, 0), (0, 1), (3, 5),
+                 # before the start of the recording: nothing in the statement
+                 # forbids it, the order is what counts
+                 (-1, 2), (-3.5, -1.0), (-1, -3), (-0.0, 0.0)]
             )
         elif mode == "swap":
             c["start_time"], c["end_time"] = c["end_time"], c["start_time"]
